@@ -233,6 +233,77 @@ Definition truth_step (t : amap Z) (e : ev) : amap Z :=
   end.
 Definition truth (l : list ev) : amap Z := fold_left truth_step l [].
 
+(* ---------------------------------------------------------------- etcd and what it delivers *)
+(* etcd's mutation history (as far as it concerns the watched range) is a list of PUT /
+   DELETE; the store after the first r mutations: *)
+Definition etcd_state (h : list bev) (r : nat) : amap Z := fold_left bapply (firstn r h) [].
+
+(* the mutations number a, a+1, ..., b-1 *)
+Definition seg (a b : nat) (h : list bev) : list bev := skipn a (firstn b h).
+
+(* What the cluster's own machinery (monitor / load / watch / watchStream / reload) obtains
+   from etcd for one watched key and feeds to handleChanges / handleWatchEvents:
+   - GLoad r snap calls : a Get answered with the store after r mutations (cluster.load);
+   - GRestart p         : cluster.setupWatch asks for a watch that starts with mutation p
+                          (WithRev): after a load, after the stream was closed or cancelled,
+                          after a reload;
+   - GResp i evs        : one watch response carrying the mutations i, i+1, ...;
+   - GJoin x order      : Registry.Monitor of a further listener on the existing watcher. *)
+Inductive gdl :=
+| GLoad (r : nat) (snap : list (Z * Z)) (calls : list lev)
+| GRestart (p : nat)
+| GResp (i : nat) (evs : list bev)
+| GJoin (x : bool) (order : list (Z * Z)).
+
+Definition ev_of_g (d : gdl) : ev :=
+  match d with
+  | GLoad _ snap calls => EReload snap calls
+  | GRestart _ => EBatch []
+  | GResp _ evs => EBatch evs
+  | GJoin x order => EJoin x order
+  end.
+
+Definition bev_eqb (a b : bev) : bool :=
+  match a, b with
+  | BPut k v, BPut k' v' => (k =? k') && (v =? v')
+  | BDel k, BDel k' => k =? k'
+  | _, _ => false
+  end.
+
+Fixpoint bevs_eqb (a b : list bev) : bool :=
+  match a, b with
+  | [], [] => true
+  | x :: a', y :: b' => bev_eqb x y && bevs_eqb a' b'
+  | _, _ => false
+  end.
+
+(* two maps agree on every key *)
+Definition amap_eqb (a b : amap Z) : bool :=
+  forallb (fun k => oz_eqb (mget k a) (mget k b)) (mkeys a ++ mkeys b).
+
+(* executable form of ProofsG.consistent: [pos] = the next mutation the current stream will
+   deliver, [hi] = how far the registry has ever been told *)
+Fixpoint consistent_b (h : list bev) (pos hi : nat) (ds : list gdl) : bool :=
+  match ds with
+  | [] => true
+  | GLoad r snap _ :: ds' =>
+    Nat.leb r (length h) && amap_eqb (snap_map snap) (etcd_state h r) && consistent_b h r (Nat.max hi r) ds'
+  | GRestart p :: ds' => Nat.leb p pos && consistent_b h p hi ds'
+  | GResp i evs :: ds' =>
+    Nat.eqb i pos && Nat.leb (i + length evs) (length h) && bevs_eqb evs (seg i (i + length evs) h) &&
+    consistent_b h (i + length evs) (Nat.max hi (i + length evs)) ds'
+  | GJoin _ _ :: ds' => consistent_b h pos hi ds'
+  end.
+
+Fixpoint final_pos_g (pos hi : nat) (ds : list gdl) : nat * nat :=
+  match ds with
+  | [] => (pos, hi)
+  | GLoad r _ _ :: ds' => final_pos_g r (Nat.max hi r) ds'
+  | GRestart p :: ds' => final_pos_g p hi ds'
+  | GResp i evs :: ds' => final_pos_g (i + length evs) (Nat.max hi (i + length evs)) ds'
+  | GJoin _ _ :: ds' => final_pos_g pos hi ds'
+  end.
+
 (* ---------------------------------------------------------------- resolver *)
 (* subset(set, sub): [sh] is what rand.Shuffle made of the set *)
 Definition subset (sh : list Z) (sub : Z) : list Z :=
